@@ -1,17 +1,67 @@
 (* Correspondence definitions for C01: the model of assoc / leftAsscom / rightAsscom / commute evaluated on the
    edges the implementation was called with. *)
-From Coq Require Import List NArith Bool.
+From Coq Require Import List NArith ZArith Bool.
 Import ListNotations.
-From GMS Require Import gen.C01Tables Plan.C01Reorder.
+From GMS Require Import gen.C01Tables Plan.C01Reorder Phys.C01Joins Phys.C01Merge.
 
 (* observed result: 0 = false, 1 = true, 2 = panic *)
 Inductive case : Type :=
 | Reorder (kind : N) (jtA : N) (leftA rightA sesA nrA : N) (jtB : N) (leftB rightB sesB nrB : N) (observed : N)
-| Commute (jt : N) (observed : N).
+| Commute (jt : N) (observed : N)
+(* operator level: physical join kind, extra ON conjunct, both inputs (k, v), observed output rows in order *)
+| Oper (kind extra : N) (l r : list (option Z * option Z)) (observed : list (list (option Z))).
 
 Definition jt_of (n : N) : option JoinType := nth_error joinTypeByValue (N.to_nat n).
 
 Definition obs_of (r : option bool) : N := match r with Some false => 0 | Some true => 1 | None => 2 end%N.
+
+(* ---------- operator level ---------- *)
+Definition orow := (option Z * option Z)%type.
+Definition eq3 (a b : option Z) : tri := match a, b with Some x, Some y => if Z.eqb x y then TT else TF | _, _ => TN end.
+Definition lt3 (a b : option Z) : tri := match a, b with Some x, Some y => if Z.ltb x y then TT else TF | _, _ => TN end.
+Definition not3t (t : tri) : tri := match t with TT => TF | TF => TT | TN => TN end.
+Definition and3t (a b : tri) : tri :=
+  match a, b with TF, _ | _, TF => TF | TT, TT => TT | _, _ => TN end.
+(* extra ON conjunct: 0 none, 1 l.v < r.v, 2 NOT (l.v = r.v), 3 r.v = 1 *)
+Definition extra3 (e : N) (x y : orow) : tri :=
+  match e with
+  | 0 => TT | 1 => lt3 (snd x) (snd y) | 2 => not3t (eq3 (snd x) (snd y)) | _ => eq3 (snd y) (Some 1%Z)
+  end%N.
+Definition c3 (e : N) (x y : orow) : tri := and3t (eq3 (fst x) (fst y)) (extra3 e x y).
+Definition is_tt (t : tri) : bool := match t with TT => true | _ => false end.
+Definition condb (e : N) (x y : orow) : bool := is_tt (c3 e x y).
+
+Definition flat (p : orow * option orow) : list (option Z) :=
+  match p with
+  | (x, Some y) => [fst x; snd x; fst y; snd y]
+  | (x, None) => [fst x; snd x; None; None]
+  end.
+Definition flat1 (x : orow) : list (option Z) := [fst x; snd x].
+
+(* kinds as in harness/props/c01/operators.go; Go's JoinTypeAnti rejects a row on a NULL comparison
+   (anti_include_nulls below keeps a row only if every comparison is FALSE), JoinTypeAntiIncludeNulls does not *)
+Definition oper_model (kind e : N) (l r : list orow) : option (list (list (option Z))) :=
+  match kind with
+  | 0 => Some (map flat (nlj (condb e) false l r))
+  | 1 => Some (map flat (nlj (condb e) true l r))
+  | 2 => Some (map flat1 (exists_semi (condb e) l r))
+  | 3 => Some (map flat1 (anti_include_nulls (c3 e) l r))
+  | 4 => Some (map flat1 (exists_anti (condb e) l r))
+  | 5 => Some (map flat (hash_join (condb e) fst fst Z.eqb false l r))
+  | 6 => Some (map flat (hash_join (condb e) fst fst Z.eqb true l r))
+  | 7 => Some (map flat1 (hash_semi (condb e) fst fst Z.eqb l r))
+  | 8 => Some (map flat1 (hash_anti (condb e) fst fst Z.eqb l r))
+  | 9 => Some (map flat (merge_join fst fst (fun x y => is_tt (extra3 e x y)) false l r))
+  | 10 => Some (map flat (merge_join fst fst (fun x y => is_tt (extra3 e x y)) true l r))
+  | _ => None
+  end%N.
+
+Definition oz_eqb (a b : option Z) : bool :=
+  match a, b with None, None => true | Some x, Some y => Z.eqb x y | _, _ => false end.
+Fixpoint ozs_eqb (a b : list (option Z)) : bool :=
+  match a, b with [], [] => true | x :: a', y :: b' => oz_eqb x y && ozs_eqb a' b' | _, _ => false end.
+Fixpoint rows_eqb (a b : list (list (option Z))) : bool :=
+  match a, b with [], [] => true | x :: a', y :: b' => ozs_eqb x y && rows_eqb a' b' | _, _ => false end.
 
 Definition ok (c : case) : bool :=
   match c with
@@ -29,6 +79,8 @@ Definition ok (c : case) : bool :=
       | Some a => N.eqb (if go_commute a then 1 else 0)%N obs
       | None => false
       end
+  | Oper kind e l r obs =>
+      match oper_model kind e l r with Some m => rows_eqb m obs | None => false end
   end.
 
 Definition mismatches (cs : list (N * case)) : list N :=
